@@ -51,7 +51,9 @@ pub fn rich_doc(kind: &str, s: &str, km: &KeyMap) -> MetadataWrapper {
                 .byproducts(
                     ByProducts::new()
                         .set_return_value(retval)
-                        .set_stdout(format!("out{s}\n"))
+                        // (stdout follows stderr in canonical order: structural characters after a string that may
+                        // end in a backslash or a quote)
+                        .set_stdout(format!("out{s}: a, [b] {{c}}\n"))
                         .set_stderr(s.to_string())
                         .set_other_field("extra".to_string(), format!("x{s}")),
                 )
@@ -354,6 +356,32 @@ pub fn edit_signed(signed: &mut Value, field: &str, scn: &Value, rng: &mut impl 
         }
         "step_threshold" if !is_link => {
             signed["steps"][0]["threshold"] = json!(2);
+            true
+        }
+        "step_threshold_one_to_zero" if !is_link => {
+            if signed["steps"][0]["threshold"] != json!(1) {
+                return false;
+            }
+            signed["steps"][0]["threshold"] = json!(0);
+            true
+        }
+        // a MATCH rule gains a source / destination clause whose prefix is the empty string
+        "match_empty_src" | "match_empty_dst" if !is_link => {
+            let r = match signed["steps"][1]["expected_materials"][3].as_array_mut() {
+                Some(r) => r,
+                None => return false,
+            };
+            // bare form: MATCH pat WITH x FROM step
+            if r.len() != 6 {
+                return false;
+            }
+            if field == "match_empty_src" {
+                r.insert(2, json!("IN"));
+                r.insert(3, json!(""));
+            } else {
+                r.insert(4, json!("IN"));
+                r.insert(5, json!(""));
+            }
             true
         }
         "step_threshold_zero" if !is_link => {
